@@ -48,6 +48,8 @@ type errflow struct {
 	w     *World
 	r     *Report
 	ioerr map[*ssa.Function]bool
+	// anyErr: rule name under which every error-returning library callee counts (errprop), not only those that can return an I/O error
+	anyErr string
 }
 
 var ioMethodNames = map[string]bool{"Write": true, "Read": true, "ReadAt": true, "Seek": true, "Close": true, "Flush": true,
@@ -252,16 +254,31 @@ func (ef *errflow) RunErrDrop(fns []*ssa.Function) {
 						}
 					}
 				}
+				rule := "errdrop"
+				if ef.anyErr != "" {
+					// the complementary set: errors that cannot come from I/O (format errors of nested decoders)
+					if prim {
+						continue
+					}
+					for _, callee := range ef.w.Callees(ci) {
+						if isLibPkg(fnPkgPath(callee)) && len(callee.Blocks) > 0 && !alwaysNilError(callee) {
+							prim = true
+							what = fnName(callee)
+							break
+						}
+					}
+					rule = ef.anyErr
+				}
 				if !prim {
 					continue
 				}
-				key := ef.r.MkKey("errdrop", name, "call "+what)
+				key := ef.r.MkKey(rule, name, "call "+what)
 				pos := ef.w.Pos(ins.Pos())
 				switch x := ins.(type) {
 				case *ssa.Defer:
-					ef.r.Fail("errdrop", key, pos, "deferred call of "+what+": its error can never be reported", nil)
+					ef.r.Fail(rule, key, pos, "deferred call of "+what+": its error can never be reported", nil)
 				case *ssa.Go:
-					ef.r.Fail("errdrop", key, pos, "go statement calling "+what+": its error is lost", nil)
+					ef.r.Fail(rule, key, pos, "go statement calling "+what+": its error is lost", nil)
 				case *ssa.Call:
 					var ev ssa.Value
 					if c.Signature().Results().Len() == 1 {
@@ -274,23 +291,48 @@ func (ef *errflow) RunErrDrop(fns []*ssa.Function) {
 						}
 					}
 					if ev == nil {
-						ef.r.Fail("errdrop", key, pos, "error result of "+what+" is discarded", nil)
+						ef.r.Fail(rule, key, pos, "error result of "+what+" is discarded", nil)
 					} else if flowsToExit(ev) {
 						if lost := errLostOnPath(fn, x, ev); lost != token.NoPos {
-							ef.r.FailC("errdrop", key, []string{"path"}, pos, "the error of "+what+" reaches a return of "+name+", but the return at "+ef.w.Pos(lost)+" can be reached with the error set and returns something else (nil or another error): on that path the fault is swallowed", nil)
+							ef.r.FailC(rule, key, []string{"path"}, pos, "the error of "+what+" reaches a return of "+name+", but the return at "+ef.w.Pos(lost)+" can be reached with the error set and returns something else (nil or another error): on that path the fault is swallowed", nil)
 						} else {
-							ef.r.OK("errdrop", key, pos, "error flows to a return/panic of "+name+" on every path on which it can be set")
+							ef.r.OK(rule, key, pos, "error flows to a return/panic of "+name+" on every path on which it can be set")
 						}
 					} else if errIndex(fn.Signature) < 0 && fn.Signature.Results().Len() == 0 && hasNilTest(ev) && fn.Parent() != nil {
 						// closures without results that test the error (e.g. helper lambdas) are checked by their parent's discipline
-						ef.r.Fail("errdrop", key, pos, "error result of "+what+" is tested but never reported by "+name, nil)
+						ef.r.Fail(rule, key, pos, "error result of "+what+" is tested but never reported by "+name, nil)
 					} else {
-						ef.r.Fail("errdrop", key, pos, "error result of "+what+" never reaches a return or panic of "+name+" (dropped or only tested)", nil)
+						ef.r.Fail(rule, key, pos, "error result of "+what+" never reaches a return or panic of "+name+" (dropped or only tested)", nil)
 					}
 				}
 			}
 		}
 	}
+}
+
+// alwaysNilError: every return of fn has the constant nil in its error position.
+func alwaysNilError(fn *ssa.Function) bool {
+	ei := errIndex(fn.Signature)
+	if ei < 0 {
+		return false
+	}
+	for _, b := range fn.Blocks {
+		if len(b.Instrs) == 0 {
+			continue
+		}
+		ret, ok := b.Instrs[len(b.Instrs)-1].(*ssa.Return)
+		if !ok {
+			continue
+		}
+		if ei >= len(ret.Results) {
+			return false
+		}
+		c, ok := ret.Results[ei].(*ssa.Const)
+		if !ok || !c.IsNil() {
+			return false
+		}
+	}
+	return true
 }
 
 func hasNilTest(v ssa.Value) bool {
